@@ -159,17 +159,18 @@ void check_solution(const char * kind, const Problem & p, const Ref & R, const J
   }
   // relative accuracy of dphi: conditioning of the solve and of the product J'r (cancellation)
   const LD gcanc = R.g.norm() > 0 ? JnRn / R.g.norm() : std::numeric_limits<LD>::infinity();
-  const LD relt  = 1e-5L + 400 * R.cond * 2.3e-16L + 100 * gcanc * 2.3e-16L;
+  // (errors of 500 cond eps were observed on the unchanged tree at cond 1e10; judged up to cond 1e8 with 4000 cond eps)
+  const LD relt  = 1e-5L + 4000 * R.cond * 2.3e-16L + 100 * gcanc * 2.3e-16L;
   // dphi is judged where D is well scaled (d_max / d_min <= 10): with a badly scaled D the components of dx that carry
   // the large weights are rounding noise of the solve and no tolerance in terms of cond(H) alone is sound (errors of
   // 5e4 cond eps were observed on the unchanged tree); formula errors (sign, factor, normalisation) show in this class
   const bool dscaled = d.maxCoeff() <= 10 * d.minCoeff();
   if (!dscaled) ctx.label("dphi:not-judged(badly-scaled-D)");
-  if (relt < 1e-3L && dscaled) {
+  if (relt < 1e-3L && dscaled && R.cond <= 1e8L) {
     // dphi = -q'H^{-1}q / |D dx| with q = D^2 dx: when |D dx| barely depends on lambda the quadratic form is small
     // against |q| |H^{-1} q| and can only be computed relative to the latter
-    const LD sc = std::max<LD>({std::abs(ref), qy, 1e-300L}) + 400 * R.cond * 2.3e-16L * qx / relt;
-    ctx.label(400 * R.cond * 2.3e-16L * qx > relt * std::max<LD>(std::abs(ref), qy) ? "dphi:tolerance-dominated-by-D-scaling" : "dphi:tolerance-relative-to-value");
+    const LD sc = std::max<LD>({std::abs(ref), qy, 1e-300L}) + 4000 * R.cond * 2.3e-16L * qx / relt;
+    ctx.label(4000 * R.cond * 2.3e-16L * qx > relt * std::max<LD>(std::abs(ref), qy) ? "dphi:tolerance-dominated-by-D-scaling" : "dphi:tolerance-relative-to-value");
     if (nrm > 0 && nrm > 1e-9L * (R.g.norm() / std::max<LD>(R.Hnorm, 1e-300L))) {
       ctx.le(std::string(kind) + ": dphi == closed-form derivative", static_cast<double>(std::abs(static_cast<LD>(dphi) - ref) / sc), static_cast<double>(relt));
       // independent of the closed form: complex-step derivative of phi(lambda) = sqrt(sum (d_i x_i(lambda))^2)
